@@ -54,6 +54,11 @@ def verdict (st : St) (env : Spec.Env) (op : Spec.OpReq) (o : Obs) (twinKey : Op
     match fails with
     | [] => ("ok", st.twins)
     | f :: _ => ("fail:" ++ f, st.twins)
+  else if st.prop = "C08" then
+    let ok := match op with
+      | .make _ => Spec.c08_register env o
+      | .get _ => Spec.c08_assert env o
+    (if ok then "ok" else "fail:signature-counter-not-previous-plus-one-or-not-what-the-store-holds", st.twins)
   else ("na", st.twins)
 
 def step (st : St) (op : List String) (impl : String) : St × String :=
